@@ -6,7 +6,7 @@ import Jap.Lemmas.ScalarCert
 
 namespace Jap.Scalar
 
-theorem okChar_printable (c : Char) (h : okChar c = true) : yamlPrintable c = true := by
+theorem okChar_printable (au : Bool) (c : Char) (h : okChar au c = true) : yamlPrintable c = true := by
   simp only [okChar, isSpecialA, isBreakA, Bool.and_eq_true, Bool.not_eq_true'] at h
   simp only [yamlPrintable, Gen.DumpCfg.readerPrintable, inRanges, Nat.ble_eq, Bool.or_eq_true, Bool.and_eq_true, Bool.or_false]
   obtain ⟨h1, h2⟩ := h
@@ -16,11 +16,12 @@ theorem okChar_printable (c : Char) (h : okChar c = true) : yamlPrintable c = tr
     · rename_i hh; simp at hh h2; omega
     · simp at h1
 
-theorem dqRaw_printable (c : Char) (h : dqRaw true c = true) : yamlPrintable c = true := by
-  simp only [dqRaw, Bool.and_eq_true, Bool.not_eq_true', Bool.or_eq_true, Bool.true_and, decide_eq_true_eq, Bool.or_eq_false_iff,
+theorem dqRaw_printable (au : Bool) (c : Char) (h : dqRaw au c = true) : yamlPrintable c = true := by
+  simp only [dqRaw, Bool.and_eq_true, Bool.not_eq_true', Bool.or_eq_true, decide_eq_true_eq, Bool.or_eq_false_iff,
     decide_eq_false_iff_not] at h
   simp only [yamlPrintable, Gen.DumpCfg.readerPrintable, inRanges, Nat.ble_eq, Bool.or_eq_true, Bool.and_eq_true, Bool.or_false]
-  omega
+  obtain ⟨h1, h2⟩ := h
+  rcases h2 with h2 | ⟨_, h2⟩ <;> omega
 
 theorem namedEscape_printable (n : Nat) (e : Char) (h : namedEscape n = some e) : yamlPrintable e = true := by
   by_cases h0 : n = 0
@@ -58,15 +59,15 @@ theorem namedEscape_printable (n : Nat) (e : Char) (h : namedEscape n = some e) 
 theorem all_append {p : Char → Bool} {a b : List Char} (ha : a.all p = true) (hb : b.all p = true) : (a ++ b).all p = true := by
   simp [List.all_append, ha, hb]
 
-theorem writeDoubleChar_printable (c : Char) : (writeDoubleChar true c).all yamlPrintable = true := by
+theorem writeDoubleChar_printable (au : Bool) (c : Char) : (writeDoubleChar au c).all yamlPrintable = true := by
   have hb : yamlPrintable '\\' = true := by decide
   have hx : yamlPrintable 'x' = true := by decide
   have hu : yamlPrintable 'u' = true := by decide
   have hU : yamlPrintable 'U' = true := by decide
   have hd : ∀ k, yamlPrintable (hexDigitU (k % 16)) = true := fun k => printable_hexDigitU _ (Nat.mod_lt _ (by decide))
   unfold writeDoubleChar
-  by_cases hraw : dqRaw true c = true
-  · simp [hraw, dqRaw_printable c hraw]
+  by_cases hraw : dqRaw au c = true
+  · simp [hraw, dqRaw_printable au c hraw]
   · simp only [hraw, Bool.false_eq_true, if_false]
     cases hne : namedEscape c.toNat with
     | some e => simp [hb, namedEscape_printable _ _ hne]
@@ -78,24 +79,24 @@ theorem writeDoubleChar_printable (c : Char) : (writeDoubleChar true c).all yaml
         · simp [hexU4, hb, hu, hd]
         · simp [hexU8, hexU4, hb, hU, hd]
 
-theorem writeDoubleBody_printable (s : List Char) : (writeDoubleBody true s).all yamlPrintable = true := by
+theorem writeDoubleBody_printable (au : Bool) (s : List Char) : (writeDoubleBody au s).all yamlPrintable = true := by
   induction s with
   | nil => rfl
-  | cons c cs ih => simp only [writeDoubleBody]; exact all_append (writeDoubleChar_printable c) ih
+  | cons c cs ih => simp only [writeDoubleBody]; exact all_append (writeDoubleChar_printable au c) ih
 
-theorem writeSingleBody_printable (s : List Char) (hs : ∀ c ∈ s, okChar c = true) :
+theorem writeSingleBody_printable (au : Bool) (s : List Char) (hs : ∀ c ∈ s, okChar au c = true) :
     (writeSingleBody s).all yamlPrintable = true := by
   induction s with
   | nil => rfl
   | cons c cs ih =>
     have hq : yamlPrintable '\'' = true := by decide
-    have hc := okChar_printable c (hs c List.mem_cons_self)
+    have hc := okChar_printable au c (hs c List.mem_cons_self)
     have := ih (fun x hx => hs x (List.mem_cons_of_mem _ hx))
     simp only [writeSingleBody]
     split <;> simp [hq, hc, this]
 
-theorem all_okChar_printable (s : List Char) (hs : ∀ c ∈ s, okChar c = true) : s.all yamlPrintable = true := by
-  rw [List.all_eq_true]; intro c hc; exact okChar_printable c (hs c hc)
+theorem all_okChar_printable (au : Bool) (s : List Char) (hs : ∀ c ∈ s, okChar au c = true) : s.all yamlPrintable = true := by
+  rw [List.all_eq_true]; intro c hc; exact okChar_printable au c (hs c hc)
 
 /-- a tail that does not start with a quote character, for the text after a quoted scalar -/
 def TailNoQuote (tail : List Char) : Prop := ∀ d ts, tail = d :: ts → d.toNat ≠ 39
@@ -105,13 +106,13 @@ tail that is empty or `:` + blank, is read back as the str itself and leaves the
 theorem text_roundtrip (sk : Bool) (s tail : List Char) (hml : isMultiline s = false) (hsk : sk = true → s ≠ [])
     (ht : TailOK tail) (htp : tail.all yamlPrintable = true) :
     loadLine (textOf sk s ++ tail) = some (Tag.str, s, tail) := by
-  have hau := allow_unicode_true
+  generalize hau : allowUnicodeCfg = au at *
   have htq : TailNoQuote tail := by
     intro d ts h
     rcases ht with rfl | ⟨t, rfl, _⟩
     · cases h
     · injection h with h1 _; subst h1; decide
-  by_cases hP : (decide (resolveDumpC s = Tag.str) && !(sk && (s.isEmpty || isMultiline s)) && allowBlockPlain true s) = true
+  by_cases hP : (decide (resolveDumpC s = Tag.str) && !(sk && (s.isEmpty || isMultiline s)) && allowBlockPlain au s) = true
   · -- plain
     have hst : styleOf sk s = Style.plain := by simp only [styleOf, chooseStyle, hau, hP, if_true]
     simp only [textOf, hst]
@@ -119,13 +120,13 @@ theorem text_roundtrip (sk : Bool) (s tail : List Char) (hml : isMultiline s = f
     obtain ⟨⟨himp, _⟩, hplain⟩ := hP
     have hne : s ≠ [] := by
       intro h; subst h; revert himp; decide +kernel
-    obtain ⟨hstart, hgo⟩ := plain_roundtrip s tail hne hplain ht
+    obtain ⟨hstart, hgo⟩ := plain_roundtrip au s tail hne hplain ht
     cases s with
     | nil => exact absurd rfl hne
     | cons c rest =>
-      obtain ⟨_, _, hspec, hml', hbi⟩ := plain_facts c rest hplain
-      have hok := okChars_of (c :: rest) hspec hml'
-      have hprint : ((c :: rest) ++ tail).all yamlPrintable = true := all_append (all_okChar_printable _ hok) htp
+      obtain ⟨_, _, hspec, hml', hbi⟩ := plain_facts au c rest hplain
+      have hok := okChars_of au (c :: rest) hspec hml'
+      have hprint : ((c :: rest) ++ tail).all yamlPrintable = true := all_append (all_okChar_printable au _ hok) htp
       have hfi : firstInd c = false := by
         simp only [blockInd, Bool.or_eq_false_iff] at hbi
         exact hbi.1.1.1.2
@@ -135,29 +136,29 @@ theorem text_roundtrip (sk : Bool) (s tail : List Char) (hml : isMultiline s = f
       simp only [loadLine, hprint, Bool.not_true, Bool.false_eq_true, if_false]
       simp only [List.cons_append] at hstart hgo ⊢
       simp [h39, h34, hstart, hgo, hload]
-  · by_cases hS : (allowSingle true s && !(sk && isMultiline s)) = true
+  · by_cases hS : (allowSingle au s && !(sk && isMultiline s)) = true
     · -- single quoted
       have hst : styleOf sk s = Style.single := by unfold styleOf chooseStyle; rw [hau, if_neg hP, if_pos hS]
       simp only [textOf, hst]
       simp only [Bool.and_eq_true, Bool.not_eq_true', allowSingle, Bool.or_eq_false_iff] at hS
-      have hspec : hasSpecial true s = false := hS.1.2.2
-      have hok := okChars_of s hspec hml
+      have hspec : hasSpecial au s = false := hS.1.2.2
+      have hok := okChars_of au s hspec hml
       have hq : yamlPrintable '\'' = true := by decide
       have hprint : (('\'' :: (writeSingleBody s ++ ['\''])) ++ tail).all yamlPrintable = true := by
-        simp [List.all_append, hq, writeSingleBody_printable s hok, htp]
-      have hgo := qGo_single s hok [] [] tail htq
+        simp [List.all_append, hq, writeSingleBody_printable au s hok, htp]
+      have hgo := qGo_single au s hok [] [] tail htq
       simp only [loadLine, hprint, Bool.not_true, Bool.false_eq_true, if_false]
       simp only [List.cons_append, List.append_assoc, List.nil_append] at hgo ⊢
       simp [qStart, hgo]
     · -- double quoted
       have hst : styleOf sk s = Style.double := by unfold styleOf chooseStyle; rw [hau, if_neg hP, if_neg hS]
       simp only [textOf, hst]
-      have hq : yamlPrintable '"' = true := by decide
-      have hprint : (('"' :: (writeDoubleBody allowUnicodeCfg s ++ ['"'])) ++ tail).all yamlPrintable = true := by
-        rw [hau]; simp [List.all_append, hq, writeDoubleBody_printable s, htp]
-      have hgo := qGo_double s [] [] tail
-      simp only [loadLine, hprint, Bool.not_true, Bool.false_eq_true, if_false]
       rw [hau]
+      have hq : yamlPrintable '"' = true := by decide
+      have hprint : (('"' :: (writeDoubleBody au s ++ ['"'])) ++ tail).all yamlPrintable = true := by
+        simp [List.all_append, hq, writeDoubleBody_printable au s, htp]
+      have hgo := qGo_double au s [] [] tail
+      simp only [loadLine, hprint, Bool.not_true, Bool.false_eq_true, if_false]
       simp only [List.cons_append, List.append_assoc, List.nil_append] at hgo ⊢
       simp [qStart, hgo]
 
